@@ -65,8 +65,8 @@ def all_ops():
 def run_history(P, hist, op, init=()):
     def one(ctx):
         it = driver_interp(P, ctx, "model")
-        entry = new_obj(it, P, "model", "Entry", entry_type="the-type", key="the-key",
-                        fields=AList([new_obj(it, P, "model", "Field", k_, v_) for k_, v_ in init]), start_line=3, raw="raw")
+        init_fields = [new_obj(it, P, "model", "Field", k_, v_, 40 + i_) for i_, (k_, v_) in enumerate(init)]
+        entry = new_obj(it, P, "model", "Entry", entry_type="the-type", key="the-key", fields=AList(list(init_fields)), start_line=3, raw="raw")
 
         def apply(o):
             k = o[0]
@@ -107,9 +107,11 @@ def run_history(P, hist, op, init=()):
             fdl = [(k, it.get_attr(v, "key"), it.get_attr(v, "value")) for k, v in fd.items.items()] if isinstance(fd, ADict) else repr(fd)
             same_objs = isinstance(fd, ADict) and [id(v) for v in fd.items.values()] == [id(f) for f in it.iterate(it.get_attr(entry, "fields"))]
             items = it.iterate(call(it, entry, "items"))
+            lines = {it.get_attr(f, "key"): it.get_attr(f, "start_line") for f in it.iterate(it.get_attr(entry, "fields"))}
+            old = [(it.get_attr(f, "key"), it.get_attr(f, "value"), it.get_attr(f, "start_line")) for f in init_fields]
         except Raised as r:
             return {"kind": "view-raise", "exc": repr(r.exc)}
-        return {"kind": "ok", "out": out, "fields": fields, "fields_dict": fdl, "items": items, "same_objs": same_objs}
+        return {"kind": "ok", "out": out, "fields": fields, "fields_dict": fdl, "items": items, "same_objs": same_objs, "lines": lines, "old": old}
     return [o for _, o in explore(one, 50)]
 
 
@@ -174,6 +176,9 @@ def run(P: Program, rep: Report):
                 bad = ("fields_dict", f"fields_dict {o['fields_dict']!r} does not describe the fields {want_state!r} (same objects, same order)")
             elif o["items"] != [("ENTRYTYPE", "the-type"), ("ID", "the-key")] + want_state:
                 bad = ("items", f"items() {o['items']!r} is not ENTRYTYPE, ID and the fields in order")
+            elif init and o["old"] != [(k_, v_, 40 + i_) for i_, (k_, v_) in enumerate(init)]:
+                bad = ("field-object-mutated", f"{op[0]} changed a Field object that was stored before ({o['old']!r}): item assignment is shorthand for "
+                                               f"set_field(Field(key, value)), the replaced Field (still referenced by callers / other entries) must stay as it was")
             if bad:
                 fails.setdefault((name, bad[0]), (hs, bad[1]))
             else:
@@ -198,6 +203,35 @@ def run(P: Program, rep: Report):
         for t_, k_, gt, gk in rows:
             rep.check((gt, gk) == (t_, k_), "C19.R1", f"reserved-lookups:type={t_!r}:key={k_!r}", entry_loc,
                       f"entry with type {t_!r} and key {k_!r}: ['ENTRYTYPE'] / ['ID'] give {gt!r} / {gk!r}")
+
+    def copied(ctx):
+        """A shallow copy and its original are two entries: removing a field from one leaves the other's views consistent."""
+        from ..absint import copy_abs
+        it = driver_interp(P, ctx, "model")
+        F = lambda k, v: new_obj(it, P, "model", "Field", k, v)
+        out = []
+        for who in ("original", "copy"):
+            e = new_obj(it, P, "model", "Entry", entry_type="t", key="k", fields=AList([F("a", "1"), F("b", "2"), F("c", "3")]), start_line=0, raw="r")
+            c = copy_abs(it, e, False, {})
+            tgt, other = (e, c) if who == "original" else (c, e)
+            try:
+                call(it, tgt, "pop", "a")
+                fl = [it.get_attr(f, "key") for f in it.iterate(it.get_attr(other, "fields"))]
+                fd = it.get_attr(other, "fields_dict")
+                fdk = list(fd.items.keys()) if isinstance(fd, ADict) else repr(fd)
+                has = it.contains(other, "a")
+                got = call(it, other, "get", "a")
+                itk = [t_[0] for t_ in it.iterate(call(it, other, "items"))][2:]
+                out.append((who, fl, fdk, has, got is not None, itk))
+            except Raised as r:
+                out.append((who, "raises", r.cls_name(), None, None, None))
+        return out
+    for ctx, rows in explore(copied, 20):
+        for who, fl, fdk, has, got, itk in rows:
+            ok = fl != "raises" and fl == fdk == itk and has == ("a" in fl) and got == ("a" in fl)
+            rep.check(ok, "C19.R1", f"shallow-copy:pop-on-{who}", entry_loc,
+                      f"after copy.copy(entry) and pop('a') on the {who}, the other entry lists fields {fl!r} but fields_dict {fdk!r}, items {itk!r}, "
+                      f"'a' in entry = {has}, get('a') found = {got}")
 
     # ---------------------------------------------------------------- equality
     rep.rule("C19.R4", "structural equality: a block / field equals its copy and its deep copy (both directions), differs from "
@@ -246,6 +280,17 @@ def run(P: Program, rep: Report):
                     res.append(("perturbed-metadata", it.equal(a, md) or it.equal(md, a), False))
                     res.append(("with-metadata-copy-equal", it.equal(md, copy_abs(it, md, False, {})) and it.equal(copy_abs(it, md, False, {}), md), True))
                     res.append(("with-metadata-deepcopy-equal", it.equal(md, copy_abs(it, md, True, {})) and it.equal(copy_abs(it, md, True, {}), md), True))
+                if cname != "Field":
+                    rd = mk(**base)
+                    it.get_attr(rd, "parser_metadata")
+                    call(it, rd, "get_parser_metadata", "absent")
+                    res.append(("metadata-merely-read-equal", it.equal(a, rd) and it.equal(rd, a), True))
+                    sr = mk(**base)
+                    call(it, sr, "set_parser_metadata", "m", 1)
+                    pm = it.get_attr(sr, "parser_metadata")
+                    if isinstance(pm, ADict):
+                        pm.items.pop("m", None)
+                    res.append(("metadata-set-and-removed-equal", it.equal(a, sr) and it.equal(sr, a), True))
                 if cname == "ExplicitComment":
                     o = builders(it)["ImplicitComment"][0](**base)
                     res.append(("other-class-same-content", it.equal(a, o) or it.equal(o, a), False))
@@ -262,12 +307,20 @@ def run(P: Program, rep: Report):
                 rep.check(bool(got) == want, "C19.R4", f"equality:{cname}:{label}", m.classes[cname].loc,
                           f"{cname}: {label} compares {'equal' if got else 'unequal'}, structural equality requires {'equal' if want else 'unequal'}")
     rep.count("equality_pairs", n_eq)
-    rep.rule("C19.R5", "no model class overrides __eq__ below Block / Field or restricts instance state with __slots__")
-    for c in m.classes.values():
-        if c.name in ("Block", "Field"):
-            continue
-        if "__eq__" in c.methods or "__slots__" in c.class_attrs or "__hash__" in c.methods:
-            rep.fail("C19.R5", f"class:{c.name}:custom-eq", c.loc, f"{c.name} defines its own __eq__/__hash__/__slots__")
+    rep.rule("C19.R5", "the structural equality compares instance dictionaries: no class in the Block / Field hierarchy keeps state outside "
+                       "__dict__ (non-empty __slots__); every Block / Field class resolves __eq__ to a method of the package (never object's identity)")
+    import ast as _ast
+    roots = [m.classes[n] for n in ("Block", "Field") if n in m.classes]
+    hier = [c for c in P.all_classes() if any(r in c.mro for r in roots)]
+    rep.require_count("C19.R5", "classes in the Block / Field hierarchy", len(hier), 10)
+    for c in hier:
+        slots = [k.class_attrs["__slots__"] for k in c.mro if "__slots__" in k.class_attrs]
+        nonempty = [x for x in slots if not (isinstance(x, (_ast.Tuple, _ast.List)) and not x.elts)]
+        eqm = c.find_method("__eq__")
+        if nonempty:
+            rep.fail("C19.R5", f"class:{c.name}:slots", c.loc, f"{c.name} restricts instance state with __slots__: attributes stored there escape the __dict__-based equality")
+        elif eqm is None:
+            rep.fail("C19.R5", f"class:{c.name}:identity-eq", c.loc, f"{c.name} has no __eq__ in its MRO: equality falls back to identity")
         else:
             rep.ok("C19.R5", f"class:{c.name}", c.loc, nontrivial=False)
 
